@@ -459,6 +459,11 @@ pub fn get_fees(network: Network) -> String {
     }
 }
 
+/// hashes of the chain currently being served (anchor first)
+pub fn main_chain_hashes() -> Vec<String> {
+    can::verif_hooks::main_chain_hashes().iter().map(|h| hex::encode(h.as_bytes())).collect()
+}
+
 pub fn stable_height() -> u32 {
     can::with_state(|s| s.stable_height())
 }
